@@ -42,7 +42,7 @@ ASSUMPTIONS = [
 ]
 REQUIRED = ["tree_form_checked", "table_form_checked", "file_form_checked", "idempotence_checked",
             "tap_sort_nodes_impl", "is_sorted_true", "is_sorted_on_inputs", "tree_root_not_at_0"]
-FLOOR = {"quick": 1000, "thorough": 20000}
+FLOOR = {"quick": 1000, "thorough": 60000}
 SHARDS = {"quick": 8, "thorough": 16}
 
 STD = ["id", "type", "x", "y", "z", "r", "pid"]
@@ -319,7 +319,7 @@ def run(ctx):
                           "sort_nodes_": normalizer.sort_nodes_})
     with tap:
         rng = ctx.rng
-        n_trees = ctx.scale(500, 9000)
+        n_trees = ctx.scale(500, 27000)
         for k in range(n_trees):
             rc = G.random_recipe(rng, max_n=G.size_ladder(ctx, k, 9, 40, 400),
                                  extras=int(rng.integers(0, 3)))
